@@ -32,15 +32,15 @@ var vocab = map[string]map[string]int{
 		"Import": 2, "Export": 1},
 	"C06": {"Burst": 2, "NewObject": 6, "NewList": 2, "Set": 12, "Unset": 6, "Clear": 1, "Merge": 5, "Pluck": 4, "KeysValues": 5, "Get": 6,
 		"TypeOf": 2, "Search": 4, "Export": 2, "Import": 2, "Add": 2},
-	"C08": {"Burst": 2, "NewList": 4, "NewObject": 4, "NewHomogeneous": 1, "Clone": 8, "Add": 5, "Insert": 3, "Replace": 4, "Delete": 3, "Pop": 3,
+	"C08": {"Burst": 2, "NewDerived": 1, "NewListOf": 1, "NewList": 4, "NewObject": 4, "NewHomogeneous": 1, "Clone": 8, "Add": 5, "Insert": 3, "Replace": 4, "Delete": 3, "Pop": 3,
 		"Clear": 1, "Reverse": 1, "Sort": 1, "Set": 6, "Unset": 3, "SetTF": 4, "UnsetTF": 3},
 	"C09": {"Burst": 2, "NewList": 4, "NewHomogeneous": 1, "NewObject": 3, "Add": 8, "Pop": 5, "Delete": 3, "Insert": 3, "Replace": 3, "Clear": 1,
 		"Sort": 1, "Reverse": 2, "Set": 5, "Unset": 3, "SubList": 5, "Concat": 7, "MapFilter": 7, "ObjMap": 4, "Merge": 4, "Pluck": 3,
 		"KeysValues": 4, "Export": 5, "MutateNative": 4, "PureCalls": 3, "Search": 2},
 	"C11": {"Burst": 2, "NewList": 3, "NewObject": 3, "SetTF": 14, "UnsetTF": 7, "GetTF": 3, "Add": 3, "Set": 3, "Pop": 1, "Unset": 1},
-	"C13": {"Burst": 2, "NewDerived": 1, "NewList": 3, "NewObject": 3, "Import": 7, "Export": 8, "MutateNative": 8, "Add": 5, "Replace": 4, "Pop": 2, "Delete": 2,
+	"C13": {"Burst": 2, "NewDerived": 1, "NewListOf": 1, "NewList": 3, "NewObject": 3, "Import": 7, "Export": 8, "MutateNative": 8, "Add": 5, "Replace": 4, "Pop": 2, "Delete": 2,
 		"Set": 5, "Unset": 3, "Clear": 1, "Sort": 1, "Reverse": 1, "Insert": 2, "NewHomogeneous": 1},
-	"C19": {"Burst": 2, "NewDerived": 6, "NewList": 2, "NewObject": 2, "Add": 6, "Insert": 4, "Replace": 4, "Delete": 3, "Pop": 3, "Clear": 1,
+	"C19": {"Burst": 2, "NewListOf": 2, "NewDerived": 6, "NewList": 2, "NewObject": 2, "Add": 6, "Insert": 4, "Replace": 4, "Delete": 3, "Pop": 3, "Clear": 1,
 		"Sort": 1, "Reverse": 3, "Set": 6, "Unset": 3, "ForEachVariants": 6, "SetTF": 4, "UnsetTF": 3, "Get": 6, "GetTF": 4,
 		"MapFilter": 3, "KeysValues": 2, "Export": 4, "PureCalls": 1},
 }
@@ -80,7 +80,7 @@ func runHist(ch *simrt.Chooser, opt Options) RunResult {
 	res.Config = map[string]any{"ops": opt.Prop, "steps": steps, "policy": cfg.Policy.String(), "key_order": cfg.KeyOrder.String()}
 
 	h := &Hist{prop: opt.Prop, byPtr: map[uintptr]*Node{}, rel: map[[2]int]string{}, counters: res.Counters,
-		derivedOK: opt.Prop == "C19" || opt.Prop == "C13", maxSlots: 16, maxNodes: 32}
+		derivedOK: opt.Prop == "C19" || opt.Prop == "C13" || opt.Prop == "C08", maxSlots: 16, maxNodes: 32}
 	switch ch.Draw("size-class", 12) {
 	case 0, 1:
 		// some runs may grow containers well past the small-capacity steps (1, 2, 4, 8, 16, 32)
